@@ -935,6 +935,11 @@ class ESME:
             self._writer = None
         except (OSError, TimeoutError, asyncio.TimeoutError):
             self._logger.exception('Error while shutting down SMSC connection')
+            if self._writer is not None:
+                # The connection is unusable (it may be half shut down already):
+                # make sure that no task writes to it any more
+                self._writer.close()
+                self._writer = None
         self._logger.debug('Closed network connection to SMSC')
 
     async def connect(self) -> None:
